@@ -111,6 +111,7 @@ pub fn c01_vault_invariant(l: &Ledger, w: &StdWorld) -> Result<(), String> {
     let mut c = l.clone();
     for p in &w.positions {
         if p.exists(&c) && p.state(&c).liquidity > 0 {
+            let p = &p.at(&c);
             let o = svm::process(&mut c, &world::ix_update_fees_and_rewards(p));
             if !o.ok() {
                 return Err(format!("update_fees_and_rewards on position {}..{} failed: {}", p.lower, p.upper, o.short()));
@@ -185,7 +186,7 @@ pub fn c01_drain(l: &Ledger, w: &StdWorld) -> Result<u64, String> {
                     return Err(format!("drain order {perm:?}: collect_protocol_fees failed: {}", o.short()));
                 }
             } else {
-                let p = &w.positions[live[*item]];
+                let p = &w.positions[live[*item]].at(&c);
                 let v2 = !w.pool.is_v1_capable();
                 let liq = p.state(&c).liquidity;
                 if liq > 0 {
